@@ -263,10 +263,14 @@ theorem checkQualLen_ok (r : Record) (h : QualOK r) : checkQualLen (canonQual r)
     simp [this]
   · rfl
 
-/-- UnmarshalSAM of the fields MarshalSAM prints: the canonical form of the record -/
-theorem parseRecord_format {ft : FloatText} (L : FloatLaws ft) (h : Header) (hh : HeaderOK h) (f : FlagFmt)
-    (hf : f = .dec ∨ f = .hex) (r : Record) (he : Expressible h r) :
-    parseRecord ft (some h) (joinWith 9 (recordFields ft f r)) = .ok (canonRecord L r) := by
+/-- UnmarshalSAM of the fields MarshalSAM prints, for any way `ho` of resolving reference names that
+returns `g x` for the name of `x`: the canonical form of the record with those references -/
+theorem parseRecord_format_gen {ft : FloatText} (L : FloatLaws ft) (ho : Option Header) (g : Ref → Ref)
+    (h : Header) (hh : HeaderOK h) (f : FlagFmt) (hf : f = .dec ∨ f = .hex) (r : Record) (he : Expressible h r)
+    (H1 : referenceForName ho (refName r.ref) = .ok (r.ref.map g))
+    (H2 : parseMateRef ho (r.ref.map g) (refName r.ref) (formatMate r.ref r.mateRef) = .ok (r.mateRef.map g)) :
+    parseRecord ft ho (joinWith 9 (recordFields ft f r)) =
+      .ok { canonRecord L r with ref := r.ref.map g, mateRef := r.mateRef.map g } := by
   have hsep := recordFields_no_sep L h hh f hf r he
   have hsplit : splitOn 9 (joinWith 9 (recordFields ft f r)) = recordFields ft f r :=
     splitOn_joinWith 9 _ (by simp [recordFields]) (fun fld hfld c hc => (hsep fld hfld c hc).1)
@@ -276,12 +280,12 @@ theorem parseRecord_format {ft : FloatText} (L : FloatLaws ft) (h : Header) (hh 
   rw [hsplit]
   simp only [recordFields, List.cons_append, List.nil_append]
   rw [parse_formatFlags r.flags f hf]
-  rw [referenceForName_opt h hh r.ref href]
+  rw [H1]
   rw [wrap64_id (r.pos + 1) (by omega) (by omega), atoi_showInt (r.pos + 1) (by omega) (by omega)]
   rw [parseUintGo_showNat_10 r.mapq.toNat 8 r.mapq.toNat_lt]
   rw [parseCigar_formatCigar r.cigar (fun co hco => ⟨Nat.le_succ_of_le (hcig.1 co hco).1, (hcig.1 co hco).2⟩)]
   simp only [ofOpt_some, except_ok_bind]
-  rw [parseMateRef_format h hh r.ref r.mateRef href hmate]
+  rw [H2]
   rw [wrap64_id (r.matePos + 1) (by omega) (by omega), atoi_showInt (r.matePos + 1) (by omega) (by omega)]
   rw [atoi_showInt r.tempLen (by omega) (by omega)]
   simp only [ofOpt_some, except_ok_bind]
@@ -299,6 +303,102 @@ theorem parseRecord_format {ft : FloatText} (L : FloatLaws ft) (h : Header) (hh 
   unfold canonRecord
   cases r
   simp
+
+/-- against the record's own header: the canonical form of the record -/
+theorem parseRecord_format {ft : FloatText} (L : FloatLaws ft) (h : Header) (hh : HeaderOK h) (f : FlagFmt)
+    (hf : f = .dec ∨ f = .hex) (r : Record) (he : Expressible h r) :
+    parseRecord ft (some h) (joinWith 9 (recordFields ft f r)) = .ok (canonRecord L r) := by
+  have := parseRecord_format_gen L (some h) id h hh f hf r he
+    (by rw [Option.map_id]; exact referenceForName_opt h hh r.ref he.2.1)
+    (by simp only [Option.map_id, id]; exact parseMateRef_format h hh r.ref r.mateRef he.2.1 he.2.2.1)
+  rw [this]
+  simp only [Option.map_id, id]
+  rfl
+
+/-! ### without a header: fake references carrying the names -/
+
+/-- the reference UnmarshalSAM makes up for a name when it has no header -/
+def fakeRef (x : Ref) : Ref := ⟨-1, x.name, 0⟩
+
+def fakeRefs (r : Record) : Record := { r with ref := r.ref.map fakeRef, mateRef := r.mateRef.map fakeRef }
+
+theorem referenceForName_nil (h : Header) (hh : HeaderOK h) (x : Option Ref) (hx : OptRefIn h x) :
+    referenceForName none (refName x) = .ok (x.map fakeRef) := by
+  cases x with
+  | none => simp [referenceForName, refName]
+  | some x =>
+    have hn := rnameOK_ne x.name (refIn_name h hh x hx)
+    simp [referenceForName, refName, hn.1, fakeRef]
+
+theorem parseMateRef_nil (h : Header) (hh : HeaderOK h) (ref mate : Option Ref)
+    (hr : OptRefIn h ref) (hm : OptRefIn h mate) :
+    parseMateRef none (ref.map fakeRef) (refName ref) (formatMate ref mate) = .ok (mate.map fakeRef) := by
+  unfold parseMateRef formatMate
+  cases mate with
+  | none =>
+    cases ref with
+    | none => simp [refName]
+    | some x =>
+      have := rnameOK_ne x.name (refIn_name h hh x hr)
+      have hcond : ¬ (x.name = ([42] : Bytes) ∨ ([42] : Bytes) = [61]) := by
+        intro hc; rcases hc with hc | hc
+        · exact this.1 hc
+        · exact absurd hc (by decide)
+      simp only [refName, hcond, if_false]
+      simp [referenceForName]
+  | some m =>
+    have hmn := rnameOK_ne m.name (refIn_name h hh m hm)
+    by_cases he : ref = some m
+    · simp [he]
+    · simp only [he, if_false]
+      cases ref with
+      | none =>
+        have hcond : ¬ (([42] : Bytes) = m.name ∨ m.name = [61]) := by
+          intro hc; rcases hc with hc | hc
+          · exact hmn.1 hc.symm
+          · exact hmn.2 hc
+        simp only [refName, hcond, if_false]
+        simp [referenceForName, hmn.1, fakeRef]
+      | some x =>
+        by_cases hxm : x.name = m.name
+        · exact absurd (by rw [refIn_unique h hh x m hr hm hxm]) he
+        · have hcond : ¬ (x.name = m.name ∨ m.name = [61]) := by
+            intro hc; rcases hc with hc | hc
+            · exact hxm hc
+            · exact hmn.2 hc
+          simp only [refName, hcond, if_false]
+          simp [referenceForName, hmn.1, fakeRef]
+
+/-- UnmarshalSAM with a nil header: the same record with fake references for the names -/
+theorem parseRecord_format_nil {ft : FloatText} (L : FloatLaws ft) (h : Header) (hh : HeaderOK h) (f : FlagFmt)
+    (hf : f = .dec ∨ f = .hex) (r : Record) (he : Expressible h r) :
+    parseRecord ft none (joinWith 9 (recordFields ft f r)) = .ok (fakeRefs (canonRecord L r)) :=
+  parseRecord_format_gen L none fakeRef h hh f hf r he
+    (referenceForName_nil h hh r.ref he.2.1) (parseMateRef_nil h hh r.ref r.mateRef he.2.1 he.2.2.1)
+
+/-- fake references print like the header's: same names, and `=` exactly when read and mate share the
+reference (names are unique in the header) -/
+theorem recordFields_fakeRefs {ft : FloatText} (h : Header) (hh : HeaderOK h) (f : FlagFmt) (r : Record)
+    (hr : OptRefIn h r.ref) (hm : OptRefIn h r.mateRef) :
+    recordFields ft f (fakeRefs r) = recordFields ft f r := by
+  have h1 : refName (r.ref.map fakeRef) = refName r.ref := by cases r.ref <;> rfl
+  have h2 : formatMate (r.ref.map fakeRef) (r.mateRef.map fakeRef) = formatMate r.ref r.mateRef := by
+    unfold formatMate
+    cases hmr : r.mateRef with
+    | none => rfl
+    | some m =>
+      rw [hmr] at hm
+      cases hrr : r.ref with
+      | none => simp [fakeRef]
+      | some x =>
+        rw [hrr] at hr
+        simp only [Option.map_some, Option.some.injEq]
+        by_cases hxm : x = m
+        · subst hxm; simp
+        · have hne : x.name ≠ m.name := fun e => hxm (refIn_unique h hh x m hr hm e)
+          simp [hxm, hne, fakeRef]
+  unfold recordFields fakeRefs
+  simp only [h1, h2]
 
 /-! ### formatting the parsed-back record, field equality -/
 
